@@ -10,7 +10,10 @@ from harness.common import Failure, Spec, coq_list
 # case = {"kind": "lock"|"sem", "limit": n, "ops": [op]}
 #   sop = ["acq"] | ["run", fn] | ["rel", i] | ["relself"] | ["cancel", i] | ["fire", j, ok, v]
 #   op  = sop | ["acqthen", [sop]] | ["runthen", [sop], fn]
-#   fn  = ["ret", v] | ["raise"] | ["defer"] | ["chain"]
+#   fn  = ["ret", v] | ["raise"] | ["defer"] | ["chain"] | ["raisebase"] | ["retd", v] | ["faild"] | ["coret", v] | ["coraise"]
+#         raisebase: raises synchronously a BaseException that is not an Exception;  retd / faild: returns an already
+#         fired / failed Deferred;  coret / coraise: f is a coroutine function returning v / raising.  For the model
+#         retd, coret = ret and faild, coraise = raise (maybeDeferred hands run() a fired Deferred in all of them).
 #         defer: returns an unfired Deferred, fired later by ["fire", j, ...];  chain: returns a Deferred that has ALREADY
 #         fired but whose chain is suspended on a pending inner Deferred (succeed(x).addCallback(lambda _: inner)); the
 #         inner one is fired later by ["fire", j, ...].  "Result available" = the chain delivered, not `called`.
@@ -19,6 +22,10 @@ DEEP = 60     # cascades deeper than this many nested synchronous run()s are the
 
 class Boom(Exception):
     pass
+
+
+class BaseBoom(BaseException):
+    """an application exception that is not an Exception (like asyncio.CancelledError, GeneratorExit, KeyboardInterrupt)"""
 
 
 def impl(case) -> str:
@@ -121,9 +128,21 @@ def impl(case) -> str:
                 return outer
             ev(f"F{j}")
             st["releasing"] = j
-            if fn[0] == "ret":
+            if fn[0] in ("ret", "coret"):
                 return fn[1]
+            if fn[0] == "retd":
+                return defer.succeed(fn[1])
+            if fn[0] == "faild":
+                return defer.fail(Boom())
+            if fn[0] == "raisebase":
+                raise BaseBoom()
             raise Boom()
+
+        if fn[0] in ("coret", "coraise"):
+            body = f
+
+            async def f():             # noqa: F811 - the same behaviour as a coroutine function
+                return body()
 
         d = prim.run(f)
         acqs[j] = d
@@ -138,6 +157,8 @@ def impl(case) -> str:
                 ev(f"R{j}:X" if j in started else f"C{j}")
             elif fl.check(Boom):
                 ev(f"R{j}:B")
+            elif fl.check(BaseBoom):
+                ev(f"R{j}:BB")
             elif fl.check(RecursionError):
                 st["recursion"] = True
             else:
@@ -212,7 +233,7 @@ def cascade_depth(case) -> int:
     """upper bound on the nesting of synchronous run() completions a history can reach"""
     n = 0
     for o in case["ops"]:
-        if o[0] in ("run", "runthen") and (o[-1][0] in ("ret", "raise")):
+        if o[0] in ("run", "runthen") and (o[-1][0] not in ("defer", "chain")):
             n += 1
         if o[0] in ("acqthen", "runthen"):
             n += sum(1 for x in o[1] if x[0] == "run")
@@ -327,7 +348,11 @@ def oracle(case, obs):
 
 def _fn(rng):
     r = rng.random()
-    return ["ret", rng.randrange(100)] if r < 0.45 else ["raise"] if r < 0.6 else ["defer"] if r < 0.8 else ["chain"]
+    if r < 0.45:
+        return [rng.choice(["ret", "ret", "retd", "coret"]), rng.randrange(100)]
+    if r < 0.6:
+        return [rng.choice(["raise", "raisebase", "faild", "coraise"])]
+    return ["defer"] if r < 0.8 else ["chain"]
 
 
 def _sop(rng, nid, in_script=False):
@@ -367,7 +392,7 @@ def _random_history(rng, n):
     return ops
 
 
-ALPHA = [["acq"], ["run", ["ret", 7]], ["run", ["raise"]], ["run", ["defer"]], ["run", ["chain"]], ["rel", 0], ["rel", 1], ["rel", 2],
+ALPHA = [["acq"], ["run", ["ret", 7]], ["run", ["raise"]], ["run", ["raisebase"]], ["run", ["defer"]], ["run", ["chain"]], ["rel", 0], ["rel", 1], ["rel", 2],
          ["cancel", 0], ["cancel", 1], ["cancel", 2], ["fire", 0, True, 5], ["fire", 1, False, 0], ["fire", 2, True, 6],
          ["acqthen", [["relself"]]], ["runthen", [["acq"], ["cancel", 1]], ["ret", 3]]]
 
@@ -379,7 +404,7 @@ def gen(rng, tier):
     for kind, limit in kinds:
         for n in range(1, depth + 1):
             for word in itertools.product(range(len(ALPHA)), repeat=n):
-                if n == depth and rng.random() > (0.04 if tier == "quick" else 0.25):
+                if n == depth and rng.random() > (0.03 if tier == "quick" else 0.2):
                     continue
                 cases.append({"kind": kind, "limit": limit, "ops": [ALPHA[a] for a in word]})
     for _ in range(200 if tier == "quick" else 6000):
@@ -411,11 +436,18 @@ def corpus():
         {"kind": "sem", "limit": 2, "ops": [["acq"], ["run", ["chain"]], ["acq"], ["run", ["chain"]], ["fire", 1, True, 5],
                                              ["cancel", 3], ["rel", 0], ["fire", 3, False, 0]]},
         {"kind": "lock", "limit": 1, "ops": [["run", ["chain"]], ["acq"], ["fire", 0, False, 0], ["rel", 1]]},
+        # every kind of function outcome must give the token back: BaseException-only, fired/failed Deferred, coroutine
+        {"kind": "lock", "limit": 1, "ops": [["run", ["raisebase"]], ["run", ["faild"]], ["run", ["coraise"]], ["run", ["retd", 4]],
+                                              ["run", ["coret", 5]], ["acq"]]},
+        {"kind": "sem", "limit": 2, "ops": [["acq"], ["run", ["defer"]], ["run", ["raisebase"]], ["runthen", [["acq"]], ["raisebase"]],
+                                             ["fire", 1, True, 3], ["rel", 0]]},
     ]
 
 
 def _fn_coq(f):
-    return f"(FRet ({f[1]})%Z)" if f[0] == "ret" else "FRaise" if f[0] == "raise" else "FDefer" if f[0] == "defer" else "FChain"
+    k = f[0]
+    return (f"(FRet ({f[1]})%Z)" if k in ("ret", "retd", "coret") else "FRaise" if k in ("raise", "faild", "coraise")
+            else "FRaiseBase" if k == "raisebase" else "FDefer" if k == "defer" else "FChain")
 
 
 def _sop_coq(o):
@@ -492,9 +524,9 @@ SPEC = Spec(
     model_equal=model_equal,
     nontrivial=lambda c, o: sum(1 for t in ("W", "C", "R", "L") if t in o) >= 2,
     histogram=histogram,
-    rule="every history of length <= 3 (quick; length 3 sampled 4%) / <= 4 (thorough; length 4 sampled 25%) over a "
-         "16-letter alphabet (acquire, run with returning/raising/unfired-Deferred-returning/already-fired-but-suspended-"
-         "Deferred-returning function, release by holder "
+    rule="every history of length <= 3 (quick; length 3 sampled 3%) / <= 4 (thorough; length 4 sampled 20%) over a "
+         "17-letter alphabet (acquire, run with returning/raising/unfired-Deferred-returning/already-fired-but-suspended-"
+         "Deferred-returning function, function raising a BaseException that is not an Exception, release by holder "
          "0-2, cancel 0-2, fire 0-2, acquire-then-release-in-callback, run whose function re-enters the primitive) "
          "for DeferredLock and DeferredSemaphore(1..3); random histories of 6-50 ops (limits up to 5) in which 30% "
          "of the ops carry re-entrant scripts; bursts of 3-400 run() calls queued behind a holder; non-trivial = at "
